@@ -52,6 +52,15 @@ def addNoise [Add K] (V : XP K) (k : Nat) (y : K) : XP K :=
   { V with xx := fun i j => if i = k ∧ j = k then V.xx i j + y else V.xx i j
            pp := fun i j => if i = k ∧ j = k then V.pp i j + y else V.pp i j }
 
+/-- a register of `n` modes grows: the `n` old modes keep their data, every other mode is an uncorrelated vacuum
+(`hbar = 2`: unit variances, zero means) -/
+def addVacuum [Zero K] [One K] (V : XP K) (n : Nat) : XP K :=
+  { xx := fun i j => if i < n ∧ j < n then V.xx i j else if i = j then 1 else 0
+    xp := fun i j => if i < n ∧ j < n then V.xp i j else 0
+    pp := fun i j => if i < n ∧ j < n then V.pp i j else if i = j then 1 else 0
+    mx := fun i => if i < n then V.mx i else 0
+    mp := fun i => if i < n then V.mp i else 0 }
+
 /-- displacement of mode `k` by `(dx, dp)` -/
 def shift [Add K] (V : XP K) (k : Nat) (dx dp : K) : XP K :=
   { V with mx := fun i => if i = k then V.mx i + dx else V.mx i
